@@ -63,10 +63,10 @@ func checkC17(P *Prog, r *Result) {
 				continue
 			}
 			name := fn.Name()
-			if name == "setCoercer" {
+			if name == R.MSetCoercer {
 				continue // own rule
 			}
-			if !ast.IsExported(name) && name != "addTest" {
+			if !ast.IsExported(name) && fn != P.notConsumer() {
 				continue
 			}
 			// builder: returns the receiver (or the NotStringSchema interface of it)
@@ -168,7 +168,7 @@ func checkC17(P *Prog, r *Result) {
 		kn := k.Obj().Name()
 		var fn *ssa.Function
 		for _, f := range P.Funcs {
-			if f.Name() == "setCoercer" && f.Signature.Recv() != nil && sameNamed(namedOf(f.Signature.Recv().Type()), k) {
+			if f.Name() == R.MSetCoercer && f.Signature.Recv() != nil && sameNamed(namedOf(f.Signature.Recv().Type()), k) {
 				fn = f
 			}
 		}
@@ -190,7 +190,7 @@ func checkC17(P *Prog, r *Result) {
 		stores := P.recvFieldWrites(fn, 0, 0, map[*ssa.Function]bool{})
 		delegates := false
 		eachInstr(fn, func(_ *ssa.BasicBlock, _ int, in ssa.Instruction) {
-			if ci := callOf(in); ci != nil && ci.invoke != nil && ci.invoke.Name() == "setCoercer" {
+			if ci := callOf(in); ci != nil && ci.invoke != nil && ci.invoke.Name() == R.MSetCoercer {
 				if len(ci.args()) == 2 && cv(ci.args()[1]) == ssa.Value(fn.Params[1]) {
 					delegates = true
 				}
@@ -331,17 +331,7 @@ func (P *Prog) checkNotTypestate(r *Result) {
 		return f != nil && P.roleName(f) == "isNot"
 	}
 	// the consumer: the function that branches on the negation flag
-	var consumer *ssa.Function
-	for _, fn := range P.Funcs {
-		eachInstr(fn, func(_ *ssa.BasicBlock, _ int, in ssa.Instruction) {
-			if iff, ok := in.(*ssa.If); ok {
-				c, _ := condKey(iff.Cond)
-				if isNotLoad(c) && fn.Parent() == nil {
-					consumer = fn
-				}
-			}
-		})
-	}
+	consumer := P.notConsumer()
 	// isNot writers
 	nWriters := 0
 	for _, fn := range P.Funcs {
@@ -776,4 +766,26 @@ func (P *Prog) testLocalIsResult(fn *ssa.Function, al *ssa.Alloc) bool {
 		}
 	}
 	return ok
+}
+
+// notConsumer: the function that branches on the negation flag (the bool field Not() sets), whatever it is called.
+func (P *Prog) notConsumer() *ssa.Function {
+	if P.notConsumerDone {
+		return P.notConsumerFn
+	}
+	P.notConsumerDone = true
+	for _, fn := range P.Funcs {
+		if fn.Parent() != nil {
+			continue
+		}
+		eachInstr(fn, func(_ *ssa.BasicBlock, _ int, in ssa.Instruction) {
+			if iff, ok := in.(*ssa.If); ok {
+				c, _ := condKey(iff.Cond)
+				if _, f := loadOfField(cv(c)); f != nil && P.roleName(f) == "isNot" {
+					P.notConsumerFn = fn
+				}
+			}
+		})
+	}
+	return P.notConsumerFn
 }
